@@ -553,6 +553,9 @@ pub fn run(ctx: &Ctx) {
     }
     crate::engine::run_generated_opts(ctx, "session-generated", ctx.tier.pick(40_000, 600_000), 64, 2_000, session_strategy, |c, st| check_session(c, st));
 
+    crate::engine::with_logging(|| {
+        crate::engine::run_generated_opts(ctx, "session+logging", ctx.tier.pick(8_000, 100_000), 64, 2_000, session_strategy, |c, st| check_session(c, st));
+    });
     crate::engine::run_generated_opts(ctx, "generated", ctx.tier.pick(40_000, 600_000), 64, 2_000, exchange_strategy, |c, st| check_exchange(c, st));
 }
 
